@@ -2,6 +2,7 @@
 //! library built from /repo's working tree and records traces for TLC to validate.
 
 mod c10;
+mod c11;
 mod c12;
 mod c13;
 mod c16;
@@ -26,6 +27,7 @@ fn main() {
         "classify" => c17::run(rest),
         "dispatch" => c12::run(rest),
         "envelope" => c10::run(rest),
+        "datetime" => c11::run(rest),
         "validate" => c13::run(rest),
         "parse1" => {
             // parse one full message (file) as type --mt and print the outcome
